@@ -224,11 +224,26 @@ def scan_dir(world, forbidden):
     return sorted(hits)
 
 
-def build_wallet(world, case, path):
+def build_wallet(world, case, path, out=None):
+    """accounts are added the way the daemon's account_add does; with `out`: the fresh accounts must hold exactly
+    what was put in (so that the originals used by the round-trip oracle are the inputs, not lbry's echo)"""
     Wallet, WalletStorage, Account = _imports()[3:6]
     wallet = Wallet(case.get("wallet_name") or "W", storage=WalletStorage(path))
     for idx, spec in enumerate(case["accounts"]):
-        Account.from_dict(world.ledger, wallet, account_dict(world.ledger, spec, idx))
+        d = account_dict(world.ledger, spec, idx)
+        certs = dict(d["certificates"])
+        acc = Account.from_dict(world.ledger, wallet, d)
+        if out is not None:
+            ok = dict(acc.channel_keys) == certs and acc.encrypted is False
+            if spec["kind"] == "seed":
+                ok = ok and acc.seed == spec["seed"] and acc.private_key is not None
+            elif spec["kind"] == "xprv":
+                ok = ok and not acc.seed and acc.private_key is not None and \
+                    acc.private_key.extended_key_string() == d["private_key"]
+            else:
+                ok = ok and not acc.seed and acc.private_key is None and \
+                    acc.public_key.extended_key_string() == d["public_key"]
+            out.check(ok, "new-account-differs-from-input:" + spec["kind"], "account %d" % idx)
     return wallet
 
 
@@ -288,7 +303,9 @@ def _crypt(case, world, out):
     path = os.path.join(world.dir, "wallet.json")
     passwords = case["passwords"]
     wrongs = case["wrongs"]
-    wallet = build_wallet(world, case, path)
+    wallet = build_wallet(world, case, path, out)
+    if out.violations:
+        return
     wallet.save()
     accounts = wallet.accounts
     pub0 = [public_view(a) for a in accounts]
@@ -420,7 +437,8 @@ def _crypt(case, world, out):
                 out.violate("right-password-raises:%s" % type(e).__name__, "%s: %r" % (tag_op, e))
                 return
             if r is not True:
-                stuck = [i for i, a in enumerate(wallet.accounts) if a.encrypted]
+                stuck = [i for i, a in enumerate(wallet.accounts) if a.encrypted and has_secret[i]] or \
+                    [i for i, a in enumerate(wallet.accounts) if a.encrypted]
                 cls = "seed-not-lowercase-wordlist" if stuck and nonword[stuck[0]] else \
                     case["accounts"][stuck[0]]["kind"] if stuck else "none-stuck"
                 out.violate("right-password-refused:" + cls, "%s: unlock(right) -> %r, account %s still encrypted; "
@@ -613,7 +631,9 @@ def _pack(case, world, out):
     import zlib
     pw = case["password"]
     path = os.path.join(world.dir, "wallet.json")
-    wallet = build_wallet(world, case, path)
+    wallet = build_wallet(world, case, path, out)
+    if out.violations:
+        return
     for k, v in case.get("preferences", {}).items():
         wallet.preferences[k] = v
     if case.get("encrypt_first"):
